@@ -17,7 +17,9 @@ LEAVES = [None, True, False, 0, 1, -1, 255, 10 ** 20, -10 ** 20, 0.0, -0.0, 1.5,
           b'', b'a', b'\x00\xff', bytes(range(60)), D.date(2001, 1, 1), D.datetime(2001, 1, 1, 10, 11, 12), D.datetime(2001, 1, 1, 10, 11, 12, 500),
           D.datetime(2001, 1, 1, 10, 11, 12, tzinfo=D.timezone.utc), D.datetime(2001, 1, 1, 10, 11, 12, tzinfo=D.timezone(D.timedelta(hours=5, minutes=30))),
           D.datetime(2001, 1, 1, 10, 11, 12, 7, tzinfo=D.timezone(D.timedelta(minutes=-1))), D.date(1, 1, 1), D.date(9999, 12, 31),
-          D.datetime(9999, 12, 31, 23, 59, 59, 999999), '', 'a', 'yes', '1', '~', '1:30', '<<', 'a b', 'a\nb', ' a', 'a ', '- a', 'a: b', '#a', "it's", 'multi\nline\n', '\u00e9']
+          D.datetime(9999, 12, 31, 23, 59, 59, 999999), '', 'a', 'yes', '1', '~', '1:30', '<<', 'a b', 'a\nb', ' a', 'a ', '- a', 'a: b', '#a', "it's", 'multi\nline\n', '\u00e9',
+          # UTC offsets that are not whole minutes (Python >= 3.7; zoneinfo's local-mean-time offsets are of this kind)
+          D.datetime(1930, 1, 1, 10, 11, 12, tzinfo=D.timezone(D.timedelta(minutes=19, seconds=32))), D.datetime(2001, 1, 1, 0, 0, 0, 5, tzinfo=D.timezone(-D.timedelta(seconds=1, microseconds=500)))]
 KEYABLE = [None, True, 0, 1, 1.5, 'a', 'b', '', 'yes', '1', b'a', D.date(2001, 1, 1), 'a\nb', 'k: v', '? ', '- x', ' lead', '\u00e9', 10 ** 20]
 
 AXES = [
